@@ -606,7 +606,7 @@ func evalC18(sc *c18Scenario, obs *c18Obs, rc *ruleCtx) {
 		// F5 (other direction): with DiscardCacheError cache failures are not errors;
 		// F6: a miss is never an error. Only claimed when everything else worked.
 		serverHealthy := baseOK && (!shapeClear || len(urls) == 0 || firstDelta != nil) && shapeClear
-		if sc.URLKind != UNormal {
+		if !urlContactable(w.baseURL) || sc.URLKind != UNormal {
 			serverHealthy = false
 		}
 		cacheFine := fo.NoCache || fo.Discard || ((get == nil || get.Outcome != "error") && (set == nil || set.Outcome != "error"))
